@@ -15,6 +15,7 @@ import (
 
 	aprov "github.com/buzzfeed/sso/internal/auth/providers"
 	"github.com/buzzfeed/sso/internal/pkg/groups"
+	"github.com/buzzfeed/sso/internal/pkg/sessions"
 )
 
 // Engine "caches" (C17). Three kinds of case:
@@ -97,16 +98,16 @@ type fcReply struct {
 }
 
 type fcRun struct {
-	fc      *groups.FillCache
-	mu      sync.Mutex
-	pending []*fcFill // fills that entered fillFunc and have not been answered
-	enter   chan *fcFill
-	upd     map[int]chan bool // Update callers
-	updFill map[int]*fcFill
-	loopOf  map[string]int // group -> loop id (harness numbering = order of successful RefreshLoop)
+	fc       *groups.FillCache
+	mu       sync.Mutex
+	pending  []*fcFill // fills that entered fillFunc and have not been answered
+	enter    chan *fcFill
+	upd      map[int]chan bool // Update callers
+	updFill  map[int]*fcFill
+	loopOf   map[string]int // group -> loop id (harness numbering = order of successful RefreshLoop)
 	loopFill map[string]*fcFill
-	nloops  int
-	stopped bool
+	nloops   int
+	stopped  bool
 }
 
 func newFcRun() *fcRun {
@@ -400,6 +401,71 @@ func memRunCase(c memCase) M {
 	return M{"kind": "mem", "in": c, "out": o, "raw": M{"kind": "mem", "mem": c}}
 }
 
+// ---------------------------------------------------------------- pop: the providers' own fill functions behind a real FillCache
+
+type popCase struct {
+	Provider string   `json:"provider"` // google | cognito
+	Answers  []string `json:"answers"`  // per Update of group "g": "ok:m1,m2" | "notfound" | "err"
+}
+
+type popAdmin struct {
+	cur string
+}
+
+func (a *popAdmin) answer() ([]string, error) {
+	switch {
+	case a.cur == "notfound":
+		return nil, groups.ErrGroupNotFound
+	case a.cur == "err":
+		return nil, errors.New("directory unavailable")
+	}
+	ms := strings.TrimPrefix(a.cur, "ok:")
+	if ms == "" {
+		return []string{}, nil
+	}
+	return strings.Split(ms, ","), nil
+}
+func (a *popAdmin) ListMemberships(string, int) ([]string, error)       { return a.answer() }
+func (a *popAdmin) CheckMemberships([]string, string) ([]string, error) { return nil, nil }
+
+type popCognitoAdmin struct{ a *popAdmin }
+
+func (c popCognitoAdmin) ListMemberships(string) ([]string, error)   { return c.a.answer() }
+func (c popCognitoAdmin) CheckMemberships(string) ([]string, error)  { return nil, nil }
+func (c popCognitoAdmin) GlobalSignOut(*sessions.SessionState) error { return nil }
+
+func popRunCase(c popCase) M {
+	adm := &popAdmin{}
+	var fill func(string) (groups.MemberSet, error)
+	if c.Provider == "google" {
+		p := &aprov.GoogleProvider{ProviderData: &aprov.ProviderData{}, StatsdClient: getStatsd(), AdminService: adm}
+		fill = p.PopulateMembers
+	} else {
+		p := &aprov.AmazonCognitoProvider{ProviderData: &aprov.ProviderData{}, StatsdClient: getStatsd(), AdminService: popCognitoAdmin{adm}}
+		fill = p.PopulateMembers
+	}
+	fc := groups.NewFillCache(fill, time.Hour)
+	fc.StatsdClient = getStatsd()
+	var obs []M
+	for _, ans := range c.Answers {
+		adm.cur = ans
+		updated := fc.Update("g")
+		ms, ok := fc.Get("g")
+		o := M{"updated": updated, "cached": ok}
+		if ok {
+			l := []string{}
+			for m := range ms {
+				l = append(l, m)
+			}
+			sort.Strings(l)
+			o["members"] = l
+		}
+		obs = append(obs, o)
+	}
+	fc.Stop()
+	return M{"kind": "pop", "in": c, "obs": obs, "raw": M{"kind": "pop", "pop": c}}
+}
+
 // ---------------------------------------------------------------- engine
 
 func init() {
@@ -423,10 +489,11 @@ func init() {
 		if replay != nil {
 			var w struct {
 				Raw struct {
-					Kind string   `json:"kind"`
-					Gc   []gcOp   `json:"gc"`
-					Fc   []fcOp   `json:"fc"`
-					Mem  memCase  `json:"mem"`
+					Kind string  `json:"kind"`
+					Gc   []gcOp  `json:"gc"`
+					Fc   []fcOp  `json:"fc"`
+					Mem  memCase `json:"mem"`
+					Pop  popCase `json:"pop"`
 				} `json:"raw"`
 			}
 			if err := json.Unmarshal(replay, &w); err != nil {
@@ -439,6 +506,8 @@ func init() {
 				emit(runFc(w.Raw.Fc))
 			case "mem":
 				emit(memRunCase(w.Raw.Mem))
+			case "pop":
+				emit(popRunCase(w.Raw.Pop))
 			}
 			return
 		}
@@ -469,6 +538,9 @@ func init() {
 			// uncached although the group's refresh loop is already registered (first fill failed / still in flight)
 			emit(memRunCase(memCase{Provider: prov, Cache: map[string][]string{"g1": {"u"}}, Asked: []string{"g1", "g2"}, User: "u", Dir: []string{"g1", "g2"}, Running: []string{"g2"}}))
 			emit(memRunCase(memCase{Provider: prov, Cache: map[string][]string{}, Asked: []string{"g2"}, User: "u", Dir: []string{"g2"}, Running: []string{"g2"}}))
+		}
+		for _, prov := range []string{"google", "cognito"} {
+			emit(popRunCase(popCase{Provider: prov, Answers: []string{"ok:u,v", "err", "ok:w", "notfound", "notfound", "ok:u", "err", "notfound", "ok:"}}))
 		}
 		// random
 		emails := []string{"a@x.io", "b@x.io", "A@x.io"}
